@@ -75,18 +75,31 @@ func checkC09(p *Program, r *Reporter) {
 	r.Rule("E5-PACING", "every path to a chunk write passes the true edge of chunk-end < now (roles and dependences checked) or a sleep for the remaining time", 1)
 	r.Rule("E5-AFTERGEN", "chunks are written only after the segment generator (availability test included) succeeded", 1)
 	nWrites := 0
+	// a closure of the delivery function that writes a chunk counts as the writer at each of its calls
+	writers := map[*ssa.Function]bool{wc: true}
+	for _, an := range wcs.AnonFuncs {
+		for _, ab := range an.Blocks {
+			for _, ain := range ab.Instrs {
+				if ac, ok := ain.(*ssa.Call); ok && ac.Call.StaticCallee() == wc {
+					writers[an] = true
+				}
+			}
+		}
+	}
 	var clusterBlocks []*ssa.BasicBlock
 	for _, cf := range cluster(wcs) {
-		if cf == wc {
+		if writers[cf] {
 			continue
 		}
 		clusterBlocks = append(clusterBlocks, cf.Blocks...)
 	}
 	for _, b := range clusterBlocks {
-		_ = b
+		if writers[b.Parent()] {
+			continue
+		}
 		for idx, in := range b.Instrs {
 			c, ok := in.(*ssa.Call)
-			if !ok || c.Call.StaticCallee() != wc {
+			if !ok || c.Call.StaticCallee() == nil || !writers[c.Call.StaticCallee()] {
 				continue
 			}
 			nWrites++
